@@ -177,7 +177,8 @@ def main():
         sys.exit(-1)
 
     except CLIError as e:
-        error_msg(str(e))
+        with msg_prefix('c '):
+            error_msg(str(e))
         sys.exit(-1)
 
     except InternalBug as e:
